@@ -1,6 +1,6 @@
 (* C08 — validation accepts exactly the well-formed instances; typed view keeps content. *)
 Require Import Ommx.Num Ommx.Poly Ommx.Msg Ommx.Eval Ommx.Tree Ommx.Inst Ommx.Relax Ommx.Transform
-        Ommx.Validate Ommx.ValidateProofs.
+        Ommx.Validate Ommx.ValidateProofs Ommx.ValidateErrors.
 From Coq Require Import String.
 Close Scope string_scope. Open Scope list_scope.
 
@@ -40,6 +40,19 @@ Proof.
   intros v H. unfold dv_bound_of. rewrite H. destruct (dv_kind v =? KIND_BINARY)%Z; reflexivity.
 Qed.
 Print Assumptions C08_content_bound.
+
+(* "reports the violated rule with the path to the offending field": every error the typed
+   conversion may report names a rule that really is violated, at a place that really is on the
+   reported path ([violated] is a declarative statement about the message: membership and
+   counting facts, independent of the order of checks); and order-free completeness: a message is
+   rejected exactly when some rule is violated somewhere *)
+Theorem C08_reported_errors_sound : forall I h errs,
+  parse_instance I h = Some errs -> errs <> [] /\ forall e, In e errs -> violated I h e.
+Proof. exact parse_instance_sound. Qed.
+Print Assumptions C08_reported_errors_sound.
+Theorem C08_rejected_iff_violated : forall I h, parse_instance I h <> None <-> exists e, violated I h e.
+Proof. exact rejected_iff_violated. Qed.
+Print Assumptions C08_rejected_iff_violated.
 
 Example C08_nonvacuous :
   let v k := {| dv_id := k; dv_kind := 3; dv_bound := None; dv_subst := None; dv_meta := [] |} in
